@@ -73,6 +73,10 @@ let () =
         (match new_secret_key (z_of_string minlen) (z p) (z q) with None -> "ERR" | Some k -> h (sk_N k))
     | ["B"; id; minlen; n] ->
       Printf.printf "B %s %s\n" id (opt (new_public_key (z_of_string minlen) (z n)))
+    | ["F"; id; p; q; cn; c] ->
+      (match precompute (z p) (z q) with
+       | None -> Printf.printf "F %s NOKEY\n" id
+       | Some k -> Printf.printf "F %s %s\n" id (opt (decrypt_checked k (z cn) (z c))))
     | ["T"; id; n; m; r] ->
       Printf.printf "T %s %s\n" id (h (textbook (z n) (z m) (z r)))
     | "Q" :: id :: n :: op :: args ->
